@@ -321,6 +321,11 @@ Fixpoint delay_shared (l : list conn) : bool :=
   | c :: l' => existsb (fun c2 => same_origin c c2 && has_delay c && has_delay c2) l' || delay_shared l'
   end.
 Definition g_delay_single (N : popnet) : bool := negb (delay_shared (conns N)).
+(* a delayed connection does not read a post-synaptic variable.  Connectivity delays the SOURCE only (Impl and Spec here);
+   the explicit circuit with delayed scalar template edges delays the template OUTPUT, post-synaptic variable included:
+   on this class the two circuits that the property compares differ (witnessed on the real code, corpus/C16). *)
+Definition g_delay_post (N : popnet) : bool :=
+  negb (existsb (fun c => has_delay c && is_mat (cw c) && uses_post (ccpl c)) (conns N)).
 Definition g_no_alias (N : popnet) : bool := negb (alias N).
 Definition g_delay_shape (N : popnet) : bool := negb (existsb delay_1x1 (conns N)).
 Definition guards (mw : Qc) (N : popnet) : bool :=
